@@ -119,8 +119,33 @@ def correspondence(ctx, model_ok):
     return r
 
 
+def _dump(inputs, outputs, gates):
+    users = {}
+    for l, _, ops in gates:
+        for o in ops:
+            users.setdefault(o, []).append(l)
+    return {'inputs': list(inputs), 'outputs': list(outputs), 'gates': [(l, t, list(o)) for l, t, o in gates],
+            'users': list(users.items()), 'blocks': []}
+
+
+def cycle_closing_replacements():
+    """an equivalent replacement whose new gates read a gate OUTSIDE the region that depends on a replaced output
+    (o1 = AND(NOT a, OR(m, NOT m)) while m = NOT(o1) stays): the result would have the cycle o1 -> t -> m -> o1, so
+    the call must raise - whether or not the region feeds an output of the circuit (dangling regions included)"""
+    sub = _dump(['a', 'm'], ['o1', 'o2'],
+                [('a', 'INPUT', []), ('m', 'INPUT', []), ('na', 'NOT', ['a']), ('nm', 'NOT', ['m']),
+                 ('t', 'OR', ['m', 'nm']), ('o1', 'AND', ['na', 't']), ('o2', 'NOT', ['m'])])
+    out = []
+    for outs in (['z'], ['z', 'o2'], ['z', 'm']):
+        c = _dump(['a', 'b'], outs, [('a', 'INPUT', []), ('b', 'INPUT', []), ('z', 'AND', ['a', 'b']),
+                                     ('o1', 'NOT', ['a']), ('m', 'NOT', ['o1']), ('o2', 'NOT', ['m'])])
+        out.append({'kind': 'replace_subcircuit', 'circuit': c, 'sub': sub, 'imap': [['a', 'a'], ['m', 'm']],
+                    'omap': [['o1', 'o1'], ['o2', 'o2']], 'equivalent': True})
+    return out
+
+
 def oracle_cases(ctx, corr):
-    return [gen_case(ctx.rng) for _ in range(ctx.n(500, 6000))]
+    return cycle_closing_replacements() + [gen_case(ctx.rng) for _ in range(ctx.n(500, 6000))]
 
 
 def oracle(case):
